@@ -589,6 +589,14 @@ func (runInfo *runInfoStruct) invokeNilCoalescingOpExpr(expr *ast.NilCoalescingO
 			return
 		}
 	} else {
+		// an interruption is not an error of the left side: never swallow it
+		select {
+		case <-runInfo.ctx.Done():
+			runInfo.rv = nilValue
+			runInfo.err = ErrInterrupt
+			return
+		default:
+		}
 		runInfo.err = nil
 	}
 	runInfo.expr = expr.RHS
